@@ -104,9 +104,19 @@ THEOREMS = [
     "SymmModel.C01.matches_implies_agree",
     "SymmModel.C01.checkWith_implies_contractibleCommon",
     "SymmModel.C01.matches_not_contractibleB",
-    "SymmModel.C01.checkWith_ignores_axes_length"
+    "SymmModel.C01.checkWith_ignores_axes_length",
+    "SymmModel.C01.matchesE_symm",
+    "SymmModel.C01.matchesAll_symm",
+    "SymmModel.C01.dictInv_of_wfB",
+    "SymmModel.C01.matchesE_symm_wf",
+    "SymmModel.C01.dictInv_of_validB",
+    "SymmModel.C01.checkWith_symm",
+    "SymmModel.C01.checkWith_implies_contractibleCommon_int",
+    "SymmModel.C01.checkWith_implies_tdotAdmissibleCommon",
+    "SymmModel.C01.checkWith_tensordotF_no_raise",
+    "SymmModel.C01.checkWith_tensordotA_no_raise"
 ]
-LEAN_FILES = ["SymmModel.Props.C01", "SymmModel.Proofs.ValidLemmas", "SymmModel.Proofs.ValidOps", "SymmModel.Proofs.ValidTdot", "SymmModel.Proofs.ValidMore", "SymmModel.Proofs.ValidTdotF", "SymmModel.Proofs.ValidLinalg", "SymmModel.Proofs.ValidFuse", "SymmModel.Proofs.ValidFuse2", "SymmModel.Proofs.ValidFuseF", "SymmModel.Proofs.ValidTdotFused", "SymmModel.Proofs.ValidMisc", "SymmModel.Proofs.ValidProg", "SymmModel.Props.C01b", "SymmModel.Props.C01All", "SymmModel.Proofs.ValidMore2Construct", "SymmModel.Proofs.ValidMore2Concat", "SymmModel.Proofs.ValidMore2Einsum", "SymmModel.Proofs.ValidMore2Reshape", "SymmModel.Proofs.ValidMore2Cert", "SymmModel.Proofs.ValidMore2Linalg", "SymmModel.Proofs.ValidMore2Prog", "SymmModel.Props.C01c", "SymmModel.Proofs.CheckLemmas", "SymmModel.Model.Check"]
+LEAN_FILES = ["SymmModel.Props.C01", "SymmModel.Proofs.ValidLemmas", "SymmModel.Proofs.ValidOps", "SymmModel.Proofs.ValidTdot", "SymmModel.Proofs.ValidMore", "SymmModel.Proofs.ValidTdotF", "SymmModel.Proofs.ValidLinalg", "SymmModel.Proofs.ValidFuse", "SymmModel.Proofs.ValidFuse2", "SymmModel.Proofs.ValidFuseF", "SymmModel.Proofs.ValidTdotFused", "SymmModel.Proofs.ValidMisc", "SymmModel.Proofs.ValidProg", "SymmModel.Props.C01b", "SymmModel.Props.C01All", "SymmModel.Proofs.ValidMore2Construct", "SymmModel.Proofs.ValidMore2Concat", "SymmModel.Proofs.ValidMore2Einsum", "SymmModel.Proofs.ValidMore2Reshape", "SymmModel.Proofs.ValidMore2Cert", "SymmModel.Proofs.ValidMore2Linalg", "SymmModel.Proofs.ValidMore2Prog", "SymmModel.Props.C01c", "SymmModel.Proofs.CheckLemmas", "SymmModel.Model.Check", "SymmModel.Props.C01d", "SymmModel.Proofs.SmallCheck"]
 PLANNED = []
 RULE = ("random programs (length <= 6) over every public operation incl. reshape and the decompositions, all "
         "symmetries (Z4 and generic classes included), abelian and fermionic, sparse, pending signs, odd charges; "
